@@ -123,7 +123,18 @@ def _case(draw):
             if kd == "N" and j == n - 1 and draw(st.integers(0, 3)) == 0:
                 d = str(draw(st.integers(1, 5)))
             params.append([nm, kd, d])
-        helpers.append({"name": f"h{i}", "style": draw(st.sampled_from(["def", "def", "lambda", "defdoc", "lambda-arg", "lambda-decoy"])), "params": params, "body": body, "ret": want})
+        style = draw(st.sampled_from(["def", "def", "lambda", "defdoc", "lambda-arg", "lambda-decoy"]))
+        closure = None
+        if style in ("def", "defdoc") and want == "N" and draw(st.integers(0, 3)) == 0:
+            # the helper lives in another scope (a factory) and has a free name of its own; the module that holds the query
+            # defines the same name with another meaning
+            if draw(st.booleans()):
+                closure = {"kind": "const", "name": f"k{i}", "inner": draw(st.integers(10, 12)), "outer": draw(st.integers(1, 3))}
+                body = f"({body}) + k{i}"
+            else:
+                closure = {"kind": "fn", "name": f"g{i}", "inner": "v * 100", "outer": "v - 7"}
+                body = f"g{i}({body})"
+        helpers.append({"name": f"h{i}", "style": style, "params": params, "body": body, "ret": want, "closure": closure})
     p = draw(st.sampled_from(["e", "e", "j", "a", "x"]))
     inner = draw(st.sampled_from(["j", "a", "x", "b", "v"]))
     items = []
@@ -176,6 +187,14 @@ def module_text(case):
             lines.append(f"{h['name']} = _keep(lambda {ps}: {h['body']})")
         elif h["style"] == "lambda-decoy":  # an unrelated lambda with the same parameter list on the line above the helper
             lines.append(f"_decoy_{h['name']} = _keep(lambda {ps}: 12345)\n{h['name']} = lambda {ps}: {h['body']}")
+        elif h.get("closure"):
+            c = h["closure"]
+            doc = "        \"a helper\"\n" if h["style"] == "defdoc" else ""
+            if c["kind"] == "const":
+                inner, outer = f"    {c['name']} = {c['inner']}", f"{c['name']} = {c['outer']}"
+            else:
+                inner, outer = f"    def {c['name']}(v):\n        return {c['inner']}", f"def {c['name']}(v):\n    return {c['outer']}"
+            lines.append(f"def _mk_{h['name']}():\n{inner}\n    def {h['name']}({ps}):\n{doc}        return {h['body']}\n    return {h['name']}\n{h['name']} = _mk_{h['name']}()\n{outer}")
         elif h["style"] == "defdoc":
             lines.append(f"def {h['name']}({ps}):\n    \"a helper\"\n    return {h['body']}")
         else:
@@ -229,7 +248,16 @@ def check(case) -> Result:
         except Exception as e:
             return r.fail(f"emitted lambda is malformed: {type(e).__name__}: {e}\n{text}")
         left = free & hnames
-        stray = free - hnames - set(pyeval.PRELUDE) - {"range"}
+        # free names of helpers that live in another scope: when they are left in the query they mean what they mean to the helper
+        import inspect
+
+        helper_scope = {}
+        for h in case["helpers"]:
+            if h.get("closure"):
+                helper_scope.update(inspect.getclosurevars(getattr(mod, h["name"])).nonlocals)
+        stray = free - hnames - set(pyeval.PRELUDE) - {"range"} - set(helper_scope)
+        if helper_scope:
+            r.labels.append("helper-from-another-scope")
         called = {n.func.id for n in ast.walk(ast.parse(case["body"], mode="eval")) if isinstance(n, ast.Call) and isinstance(n.func, ast.Name)} & hnames
         inlined = called - left
         if inlined:
@@ -245,6 +273,7 @@ def check(case) -> Result:
         if stray:
             return r.fail(f"unbound name(s) {sorted(stray)} in the emitted lambda `{ast.unparse(lam)}`\n{text}")
         env = {n: getattr(mod, n) for n in left}
+        env.update({n: v for n, v in helper_scope.items() if n in free})
         env["range"] = lambda *a: pyeval.Seq(range(*a))
         try:
             got = pyeval.materialise(pyeval.evaluate(lam, env)(_Elem()))
